@@ -22,6 +22,7 @@ RULE = ('literal and description strings drawn over the whole character set the 
         'removed or added, case change, one character more or less) is not, prefixes containing word-break and glob '
         'characters are stripped exactly, and a canary directory keeps its content. '
         'non-trivial = grammar containing >= 1 string with a shell-special character; distinct by (text, shell / query)')
+RULE += ' ' + 'Half of the cases hold two words of the same table shape (the bash emitter writes the literal tables of shape-sharing words at another place than those of a word with a shape of its own).'
 ASSUMPTIONS = ['fish / zsh / pwsh constants are decoded by cgv/readers.py (documented double-quote rules); curly quotes '
                '(a PowerShell string terminator) are not generated',
                'command names are plain (`cmd`): the statement is about literals and descriptions']
